@@ -55,6 +55,14 @@ func runOne(ctx context.Context, sp solverSpec, script string, timeoutS int) Sol
 	_ = cmd.Run()
 	res := SolveResult{Solver: sp.name, Seconds: time.Since(start).Seconds()}
 	o := out.String()
+	// skip solver warnings in front of the answer
+	for strings.HasPrefix(o, "WARNING") || strings.HasPrefix(o, "(warning") {
+		k := strings.Index(o, "\n")
+		if k < 0 {
+			break
+		}
+		o = o[k+1:]
+	}
 	first := strings.TrimSpace(strings.SplitN(o, "\n", 2)[0])
 	switch {
 	case first == "unsat":
